@@ -95,12 +95,14 @@ class ArityChecker(MultiFunction):
         else:
             return b
 
-    # inner, outer and dot all behave as product but for conjugates
+    # inner and outer behave as product but for conjugates
     def inner(self, o, a, b):
         """Apply to inner."""
         return self.product(o, a, self.conj(None, b))
 
-    dot = inner
+    def dot(self, o, a, b):
+        """Apply to dot: a product without conjugation (Dot lowers to a[..., i] * b[i, ...])."""
+        return self.product(o, a, b)
 
     def outer(self, o, a, b):
         """Apply to outer."""
